@@ -97,6 +97,39 @@ func (w *World) CheckIndexes(tx *bbolt.Tx, m *Model) error {
 				return err
 			}
 		}
+		if sc.UniqueSerial {
+			// index keys are the raw int64 bytes of the field
+			want := map[int64]string{}
+			for id, e := range ents {
+				want[e.Serial] = id
+			}
+			got := map[int64]string{}
+			if b := rawBucket(tx, m.Cfg.PathOf(boltz.IndexesBucket, sc.Name, FSerial)...); b != nil {
+				var ferr error
+				_ = b.ForEach(func(k, v []byte) error {
+					n := boltz.FieldToInt64(boltz.TypeInt64, k)
+					if n == nil {
+						ferr = fmt.Errorf("unique index %s.serial: key %x is not an int64", sc.Name, k)
+						return nil
+					}
+					got[*n] = string(v)
+					return nil
+				})
+				if ferr != nil {
+					return ferr
+				}
+			}
+			for v, id := range want {
+				if got[v] != id {
+					return fmt.Errorf("unique index %s.serial: value %d should map to %q, index has %q", sc.Name, v, id, got[v])
+				}
+			}
+			for v, id := range got {
+				if _, ok := want[v]; !ok {
+					return fmt.Errorf("unique index %s.serial: stale entry %d -> %q (no entity holds that value)", sc.Name, v, id)
+				}
+			}
+		}
 		if sc.RolesIndex {
 			want := map[string][]string{}
 			for id, e := range ents {
